@@ -267,6 +267,17 @@ def check_identities(chk, prog, cfg, rules=("R5.3", "R5.4", "R5.5")):
                 why = "forwards to %s, identity is %s" % (tgt, it["s"])
         else:
             mentions = [p for p in params if shape_mentions(sh, p)]
+            # ... nor may anything else the body evaluates depend on them (e.g. type_name::<Self>() put into the docs)
+            tb = prog.body(fn[0]["path"])
+            if tb is not None:
+                for bp_ in [tb.path] + list(prog.closures_by_root.get(tb.path, [])):
+                    bb_ = prog.body(bp_)
+                    for _, t_ in (bb_.calls() if bb_ is not None else []):
+                        for g in (t_.get("gargs") or []):
+                            if isinstance(g, int):
+                                for p_ in params:
+                                    if p_ not in mentions and prog.ty_mentions(g, lambda x, p_=p_: (x["k"] == "param" and x.get("n") == p_) or (x["k"] == "param" and x.get("n") == "Self")):
+                                        mentions.append(p_)
             target = find_impl_for(prog, imps, it)
             ok = not mentions and target is imp
             why = "own definition; mentions type parameters %s; identity %s %s an instance of this impl" % (
